@@ -145,3 +145,31 @@ theorem normLonMax_id {x : ℚ} (h0 : -180 < x) (h1 : x ≤ 180) : normLonMax x 
     ring
 
 end Srtm
+
+namespace Srtm
+
+/-- a rectangle inside the covered area (60° S … 90° N, 180° W … 180° E) with non-empty interior -/
+structure Valid (r : Rect) : Prop where
+  latLo : -60 ≤ r.latMin
+  lat : r.latMin < r.latMax
+  latHi : r.latMax ≤ 90
+  lonLo : -180 ≤ r.lonMin
+  lon : r.lonMin < r.lonMax
+  lonHi : r.lonMax ≤ 180
+
+/-- facts about the table of 27 tiles used by the proofs (checked by evaluation in the kernel) -/
+theorem tiles_facts : ∀ t ∈ tiles, t.latMax - t.latMin = 50 ∧ t.lonMax - t.lonMin = 40 ∧
+    -60 ≤ t.latMin ∧ t.latMax ≤ 90 ∧ -180 ≤ t.lonMin ∧ t.lonMax ≤ 180 := by decide +kernel
+
+theorem tiles_nodup : tiles.Nodup := by decide +kernel
+
+/-- two different tiles of the table have disjoint interiors -/
+theorem tiles_disjoint : ∀ t ∈ tiles, ∀ t' ∈ tiles, t ≠ t' →
+    (t.latMax ≤ t'.latMin ∨ t'.latMax ≤ t.latMin ∨ t.lonMax ≤ t'.lonMin ∨ t'.lonMax ≤ t.lonMin) := by
+  decide +kernel
+
+/-- the table has a tile for each of the 3 × 9 bands -/
+theorem tiles_cover : ∀ a ∈ List.range 3, ∀ b ∈ List.range 9, ∃ t ∈ tiles,
+    t.latMax = 90 - 50 * (a : ℤ) ∧ t.lonMin = -180 + 40 * (b : ℤ) := by decide +kernel
+
+end Srtm
